@@ -23,7 +23,10 @@ type Slicer struct {
 	// ThroughReturns: a call to a repo function with a body continues into its
 	// returned values (for the result index used).
 	ThroughReturns func(callee *ssa.Function) bool
-	maxDepth       int
+	// KeepExtract: an extracted tuple component of a call is reported as the
+	// terminal (so that the result index is known) instead of the call.
+	KeepExtract bool
+	maxDepth    int
 }
 
 // Origins returns the terminal values of the backward slice of v.
@@ -57,6 +60,12 @@ func (s *Slicer) Origins(v ssa.Value) []ssa.Value {
 		case *ssa.Slice:
 			visit(x.X, resIdx, depth)
 		case *ssa.Extract:
+			if s.KeepExtract {
+				if _, isCall := x.Tuple.(*ssa.Call); isCall {
+					addTerm(x)
+					return
+				}
+			}
 			visit(x.Tuple, x.Index, depth)
 		case *ssa.UnOp:
 			if x.Op == token.MUL {
